@@ -79,6 +79,8 @@ pub struct Outcome {
     pub cut: bool,
     /// an infinite construct (anyo, flood, always/never) was unfolded a bounded number of times
     pub unfolded: bool,
+    /// evaluation steps the reference needed (a measure of the size of the search tree)
+    pub steps: u64,
 }
 
 pub struct R1<'a> {
@@ -267,6 +269,7 @@ impl<'a> R1<'a> {
             choice_points: self.choice_points.clone(),
             cut: self.cut,
             unfolded: self.unfolded,
+            steps: self.opts.fuel - self.fuel,
         }
     }
 
